@@ -717,7 +717,7 @@ theorem BookInv.step (s s' : Sys) (m : Msg) (rest0 subs : List Msg)
       | reward s1 sender funds rm heq h1 _ _ hx' h bb t dd g =>
         injection heq with _ e2 _ _
         exact same h ch.1 ch.2 (sentBy_noStake b (by rw [e2]; decide) subs sent)
-      | disp env sender funds dm heq hx' h bb t r g =>
+      | disp env sender funds dm heq _ _ hx' h bb t r g =>
         injection heq with _ e2 _ _
         exact same h ch.1 ch.2 (sentBy_noStake b (by rw [e2]; decide) subs sent)
       | reg s1 sender funds rm heq h1 _ _ hx' h bb t r dd =>
@@ -873,7 +873,7 @@ theorem C02_direct_call_recognises (s s' : Sys) (sender : Addr) (funds : List (D
     | bsei s1 sender' funds' tm heq _ _ _ _ _ _ _ => injection heq with _ e2 _ _; cases e2
     | stsei blk sender' funds' tm heq _ _ _ _ _ _ => injection heq with _ e2 _ _; cases e2
     | reward s1 sender' funds' rm heq _ _ _ _ _ _ _ _ _ => injection heq with _ e2 _ _; cases e2
-    | disp env sender' funds' dm heq _ _ _ _ _ _ => injection heq with _ e2 _ _; cases e2
+    | disp env sender' funds' dm heq _ _ _ _ _ _ _ _ => injection heq with _ e2 _ _; cases e2
     | reg s1 sender' funds' rm heq _ _ _ _ _ _ _ _ _ => injection heq with _ e2 _ _; cases e2
 
 /-! Non-vacuity: the genesis state of the corpus satisfies the premises. -/
@@ -1268,7 +1268,7 @@ theorem HubFund.step (s s' : Sys) (m : Msg) (rest0 subs : List Msg)
       | bsei _ _ _ _ heq _ _ h _ _ _ _ => exact h
       | stsei _ _ _ _ heq _ h _ _ _ _ => exact h
       | reward _ _ _ _ heq _ _ _ _ h _ _ _ _ => exact h
-      | disp _ _ _ _ heq _ h _ _ _ _ => exact h
+      | disp _ _ _ _ heq _ _ _ h _ _ _ _ => exact h
       | reg _ _ _ _ heq _ _ _ _ h _ _ _ _ => exact h
     subst hsub
     refine ⟨A', rest, by simp [h2], hA', hrest, ?_⟩
@@ -1319,7 +1319,7 @@ theorem HubFund.step (s s' : Sys) (m : Msg) (rest0 subs : List Msg)
       exact other h (sentBy_noOut stseiA (by decide) subs (sent.1 _ _ _ _ heq))
     | reward s1 sender funds rm heq _ _ _ _ h _ _ _ _ =>
       exact other h (sentBy_noOut rewardA (by decide) subs (sent.1 _ _ _ _ heq))
-    | disp env sender funds dm heq _ h _ _ _ _ =>
+    | disp env sender funds dm heq _ _ _ h _ _ _ _ =>
       exact other h (sentBy_noOut dispA (by decide) subs (sent.1 _ _ _ _ heq))
     | reg s1 sender funds rm heq _ _ _ _ h _ _ _ _ =>
       exact other h (sentBy_noOut regA (by decide) subs (sent.1 _ _ _ _ heq))
